@@ -128,6 +128,32 @@ pub mod fs {
                 old(w).healthy && (self@.mode.write || self@.mode.append) ==> r is Ok,
         { unimplemented!() }
     }
+    impl File {
+        /// AsyncRead::poll_read of an async-std file (after R21): Pending reads nothing
+        #[verifier::external_body]
+        pub fn poll_read(&mut self, cx: &mut crate::shims::std::task::Context<'_>, buf: &mut [u8]) -> (r: crate::shims::std::task::Poll<io::Result<usize>>)
+            ensures
+                final(buf)@.len() == old(buf)@.len(),
+                final(self)@.path == old(self)@.path, final(self)@.mode == old(self)@.mode, final(self)@.reliable == old(self)@.reliable,
+                final(self)@.content == old(self)@.content,
+                match r {
+                    crate::shims::std::task::Poll::Ready(Ok(n)) => n <= old(buf)@.len() && old(self)@.pos + n <= old(self)@.content.len()
+                        && final(self)@.pos == old(self)@.pos + n
+                        && final(buf)@.subrange(0, n as int) == old(self)@.content.subrange(old(self)@.pos, old(self)@.pos + n)
+                        && (n == 0 && old(buf)@.len() > 0 ==> old(self)@.pos == old(self)@.content.len()),
+                    _ => final(self)@.pos == old(self)@.pos,
+                }
+        { unimplemented!() }
+    }
+    #[verifier::external_body]
+    pub struct Metadata { m: u8 }
+    /// stat(2) (follows symbolic links)
+    #[verifier::external_body]
+    pub fn metadata<A: PathArg>(p: A, Tracked(w): Tracked<&World>) -> (r: io::Result<Metadata>)
+        ensures
+            r is Ok ==> (w.fs.files.contains_key(resolve(w.fs, p.pathv())) || w.fs.dirs.contains(resolve(w.fs, p.pathv()))),
+            w.healthy && (w.fs.files.contains_key(resolve(w.fs, p.pathv())) || w.fs.dirs.contains(resolve(w.fs, p.pathv()))) ==> r is Ok,
+    { unimplemented!() }
     #[verifier::external_body]
     pub fn read<A: PathArg>(p: A, Tracked(w): Tracked<&World>) -> (r: io::Result<Vec<u8>>)
         ensures
